@@ -309,7 +309,30 @@ type raceReport struct {
 }
 
 var reFrameLine = regexp.MustCompile(`^\s{2}(\S.*)\(.*\)\s*$`)
-var reGeneric = regexp.MustCompile(`\[[^\]]*\]`)
+type bracketStripper struct{}
+
+// ReplaceAllString removes [...] groups (generic instantiations), nesting included.
+func (bracketStripper) ReplaceAllString(s, _ string) string {
+	out := make([]byte, 0, len(s))
+	depth := 0
+	for i := 0; i < len(s); i++ {
+		switch s[i] {
+		case '[':
+			depth++
+		case ']':
+			if depth > 0 {
+				depth--
+			}
+		default:
+			if depth == 0 {
+				out = append(out, s[i])
+			}
+		}
+	}
+	return string(out)
+}
+
+var reGeneric bracketStripper
 
 // parseRaceLog splits race-detector output into reports and derives for each a
 // signature from the two access stacks: per stack the innermost and the
@@ -791,7 +814,7 @@ func (d *driver) main(only string, scale float64) int {
 		}
 		dir := filepath.Join(d.root, "replays", d.prop)
 		os.MkdirAll(dir, 0o755)
-		name := fmt.Sprintf("%s-%s-%d-%d.json", g.v.Mode, g.v.Build, g.v.Index, g.v.CaseSeed)
+		name := fmt.Sprintf("%s-%s-%d-%d-%x.json", g.v.Mode, g.v.Build, g.v.Index, g.v.CaseSeed, core.HashString(sig)&0xffffff)
 		p := filepath.Join(dir, name)
 		b, _ := json.MarshalIndent(map[string]any{"violation": g.v, "occurrences_with_this_signature": g.n, "tier": d.tier,
 			"how_to_replay": "./check replay " + p}, "", " ")
